@@ -1,6 +1,8 @@
 package agg
 
 import (
+	"sync"
+
 	"github.com/practable/relay/internal/hub"
 )
 
@@ -12,9 +14,29 @@ type Hub struct {
 	Unregister chan *hub.Client
 	Add        chan Rule
 	Delete     chan string
-	Rules      map[string][]string
+	Rules      map[string][]string //written by Run() under rulesMu, read through GetRules()/GetRule()
+	rulesMu    sync.RWMutex        //guards Rules, which the API handlers read while Run() updates it
 	Streams    map[string]map[*hub.Client]bool
 	SubClients map[*hub.Client]map[*SubClient]bool
+}
+
+// GetRules returns a copy of the rule table, safe to use while the hub is updating it
+func (h *Hub) GetRules() map[string][]string {
+	h.rulesMu.RLock()
+	defer h.rulesMu.RUnlock()
+	rules := make(map[string][]string, len(h.Rules))
+	for stream, feeds := range h.Rules {
+		rules[stream] = feeds
+	}
+	return rules
+}
+
+// GetRule returns the feeds of that stream and whether it has a rule, safe to use while the hub is updating the table
+func (h *Hub) GetRule(stream string) ([]string, bool) {
+	h.rulesMu.RLock()
+	defer h.rulesMu.RUnlock()
+	feeds, ok := h.Rules[stream]
+	return feeds, ok
 }
 
 // Rule represents which Feeds a combined to form a Stream
